@@ -9,6 +9,7 @@ fn main() {
         ("indexed_priority_queue", "nexosim/src/util/indexed_priority_queue.rs"),
         ("queue", "nexosim/src/channel/queue.rs"),
         ("seq_futures", "nexosim/src/util/seq_futures.rs"),
+        ("injector", "nexosim/src/executor/mt_executor/injector.rs"),
     ];
     let mut f = std::fs::File::create(format!("{}/incl.rs", out)).unwrap();
     for (m, p) in files {
